@@ -10,6 +10,7 @@
 #define _exit(x) fz_exit(x)
 #define main nqv_smtpd_main
 #include "qmail-smtpd.c"
+#include "commands.c"                   /* the tree's command reader, included to reach its static line buffer */
 #undef main
 #undef _exit
 
@@ -42,6 +43,7 @@ int LLVMFuzzerTestOneInput(const uint8_t *data, size_t size)
   databytes = ((sel >> 4) & 3) == 2 ? 64 : ((sel >> 4) & 3) == 3 ? 100000 : databytes0;
   fz_qq_result = ((sel >> 6) & 3) == 2 ? "Dperm (stub)" : ((sel >> 6) & 3) == 3 ? "Ztemp (stub)" : "";
   seenmail = 0; flagbarf = 0; bytestooverflow = 0;
+  FZ_FRESH(addr); FZ_FRESH(mailfrom); FZ_FRESH(rcptto); FZ_FRESH(helohost); FZ_FRESH(cmd);
   ssin.p = 0; ssin.n = sizeof ssinbuf; ssout.p = 0;
   if (!setjmp(fz_jb)) {
     dohelo(remotehost);
